@@ -48,6 +48,9 @@ class Frame(object):
         return '%s.%s' % (self.cls, self.fn.name) if self.cls else self.fn.name
 
 
+RECORD_ARGS = frozenset([('ExcludeRegionState', 'processLinearMoves')])
+
+
 class Interp(object):
     def __init__(self, model, fieldspec=None, unroll=1, debug_logging=False):
         self.m = model
@@ -340,6 +343,8 @@ class Interp(object):
                 pass
             else:
                 return [(st, Raised('TypeError', 'unexpected keyword %s for %s' % (sorted(kw), frame.qual())))]
+        if (cls, fn.name) in RECORD_ARGS:
+            st.ev('args', cls, fn.name, tuple((k, v) for k, v in env.items() if k != 'self'))
         gen = _is_generator(fn)
         if gen:
             # a generator is run to completion; its yields are collected in order
